@@ -73,6 +73,16 @@ func (fr *Frame) encodeInstr(b *ssa.BasicBlock, instr ssa.Instruction) {
 			vc.addErr("%s: unsupported allocation of %s", fr.label, pt)
 		}
 	case *ssa.FieldAddr:
+		if a, ok := fr.addrs[x.X]; ok && a.k == aElem && a.E.K == KStruct {
+			// &s[i].f or &local.f where the element / cell holds a struct VALUE: the address is never nil; loads select the
+			// field of the stored value (stores through such an address are not modelled)
+			st := x.X.Type().Underlying().(*types.Pointer).Elem().Underlying().(*types.Struct)
+			na := *a
+			na.k = aElemField
+			na.T, na.F = a.E.Name, st.Field(x.Field).Name()
+			fr.addrs[x] = &na
+			return
+		}
 		xv := fr.val(x.X)
 		st := x.X.Type().Underlying().(*types.Pointer).Elem().Underlying().(*types.Struct)
 		T := fr.structName(x.X.Type().Underlying().(*types.Pointer).Elem())
@@ -296,6 +306,7 @@ func (fr *Frame) addEdge(from, to *ssa.BasicBlock, cond string) {
 			pos = to.Instrs[len(to.Instrs)-1].Pos()
 		}
 		fr.checkInvariants(li, phiVals, fr.st, "preserved", pos)
+		fr.checkVariant(li, phiVals, fr.st, pos)
 		fr.reach = save
 		return
 	}
@@ -328,6 +339,10 @@ func (fr *Frame) encodeLoad(x *ssa.UnOp) {
 		case aCell:
 			m := fr.getMem(cellMem(a.E), arraySort("Int", a.E.Sort()))
 			fr.define(x, sel(m, a.id), a.E)
+		case aElemField:
+			fr.regElem(a.E)
+			whole := sel(sel(fr.getMem(elemMem(a.E), elemMemSort(a.E)), a.arr), a.idx)
+			fr.define(x, "("+a.T+".."+a.F+" "+whole+")", ty)
 		}
 		return
 	}
@@ -397,6 +412,8 @@ func (fr *Frame) encodeStore(x *ssa.Store) {
 			srt := arraySort("Int", a.E.Sort())
 			m := fr.getMem(cellMem(a.E), srt)
 			fr.setMem(cellMem(a.E), srt, store(m, a.id, fr.coerce(v, a.E)))
+		case aElemField:
+			vc.addErr("%s: store to a field of a struct value held in a slice element is not modelled", fr.label)
 		}
 		return
 	}
